@@ -12,6 +12,7 @@ mod ops4;
 mod ops5;
 mod ops6;
 mod ops7;
+mod ops8;
 
 fn main() {
     std::panic::set_hook(Box::new(|_| {}));
